@@ -167,12 +167,13 @@ Qed.
 Lemma set_by_neq n o k : bytes_eqb n k = false -> set_by n o k = false.
 Proof. intros H. destruct o; [exact H|reflexivity]. Qed.
 
-(* Status -> headers -> Status for add_header onto a map m0 that holds no status headers
-   (generalises Proofs/Status.status_roundtrip, which is the case m0 = []) *)
+(* Status -> headers -> Status for add_header onto a map m0 that holds no grpc-message of its own
+   (generalises Proofs/Status.status_roundtrip_full, which is the case m0 = []).  For EVERY status
+   metadata and whatever m0 holds under grpc-status-details-bin: since fix ed827503 (F-C04e) the
+   details header of the written map is the status's own or absent *)
 Theorem status_roundtrip_on st m0 :
   well_formed st -> utf8_valid (st_msg st) = true ->
-  hm_get_all (st_md st) hdr_grpc_status_details = [] ->
-  hm_get_all m0 hdr_grpc_message = [] -> hm_get_all m0 hdr_grpc_status_details = [] ->
+  hm_get_all m0 hdr_grpc_message = [] ->
   exists m st',
     add_header st m0 = Some m /\ from_header_map m = Some st' /\
     st_code st' = st_code st /\ st_msg st' = st_msg st /\ st_details st' = st_details st /\
@@ -181,22 +182,20 @@ Theorem status_roundtrip_on st m0 :
       then []
       else match hm_get_all (sanitize (st_md st)) k with [] => hm_get_all m0 k | l => l end.
 Proof.
-  intros WF Hutf Hnod M0m M0d. pose proof WF as (Hc & Hm & Hd).
+  intros WF Hutf M0m. pose proof WF as (Hc & Hm & Hd).
   destruct (add_header_wire st m0 WF) as (m & cv & Hm1 & Hcv & Hpt).
   destruct (code_roundtrip _ Hc) as [cv' (Hcv' & Hback & _)].
   rewrite Hcv in Hcv'. injection Hcv' as <-.
   exists m.
   destruct names_distinct as (SM & SD & MD & MS & DS & DM).
   assert (GS : hm_get_all m hdr_grpc_status = [cv]).
-  { rewrite Hpt, (set_by_neq _ _ _ DS), (set_by_neq _ _ _ MS), bytes_eqb_refl. reflexivity. }
+  { rewrite Hpt, DS, (set_by_neq _ _ _ MS), bytes_eqb_refl. reflexivity. }
   assert (GM : hm_get_all m hdr_grpc_message = opt_list (msg_value st)).
-  { rewrite Hpt, (set_by_neq _ _ _ DM). unfold set_by. destruct (msg_value st).
+  { rewrite Hpt, DM. unfold set_by. destruct (msg_value st).
     - now rewrite bytes_eqb_refl.
     - rewrite SM, reserved_message_name. exact M0m. }
   assert (GD : hm_get_all m hdr_grpc_status_details = opt_list (details_value st)).
-  { rewrite Hpt. unfold set_by at 1. destruct (details_value st).
-    - now rewrite bytes_eqb_refl.
-    - rewrite (set_by_neq _ _ _ MD), SD, not_reserved_details, Hnod. exact M0d. }
+  { rewrite Hpt. now rewrite bytes_eqb_refl. }
   assert (Dmsg : pct_decode (pct_encode in_encoding_set (st_msg st)) = st_msg st).
   { apply pct_decode_encode; [exact pct_in_set | exact Hm]. }
   assert (Ddet : dec (enc false (st_details st)) = Some (st_details st)).
@@ -211,7 +210,7 @@ Proof.
     destruct (bytes_eqb k hdr_grpc_message) eqn:K2; [reflexivity|].
     destruct (bytes_eqb k hdr_grpc_status_details) eqn:K3; [reflexivity|]. cbn [orb].
     rewrite Hpt. rewrite bytes_eqb_sym in K1, K2, K3.
-    rewrite (set_by_neq _ _ _ K3), (set_by_neq _ _ _ K2), K1, get_all_sanitize. reflexivity. }
+    rewrite K3, (set_by_neq _ _ _ K2), K1, get_all_sanitize. reflexivity. }
   unfold from_header_map, hm_get. rewrite GS, GM, GD. unfold msg_value, details_value.
   destruct (st_msg st) as [|a l] eqn:E1; destruct (st_details st) as [|a' l'] eqn:E2;
     cbn [is_nil opt_list hd_error].
@@ -250,16 +249,30 @@ Proof. destruct o; cbn [ins_opt]; [apply insert_length|lia]. Qed.
 Lemma extend_length m o : (length (hm_extend m o) <= length m + length o)%nat.
 Proof. unfold hm_extend. rewrite app_length. pose proof (filter_len (fun e => negb (hm_contains o (fst e))) m). lia. Qed.
 
-(* Status::add_header adds at most the three status headers to the target and the metadata *)
+Lemma removed_names_le st : removed_names st <= 1.
+Proof. unfold removed_names. destruct (st_details st); [destruct (hm_contains _ _)|]; lia. Qed.
+
+(* Status::add_header adds at most the three status headers to the target and the metadata; the
+   entry a status without details removes at the end is counted with them *)
 Lemma add_header_length st m0 h :
   well_formed st -> add_header st m0 = Some h ->
-  (length h <= length m0 + length (st_md st) + 3)%nat.
+  (length h + N.to_nat (removed_names st) <= length m0 + length (st_md st) + 3)%nat.
 Proof.
   intros WF Hh. pose proof WF as (Hc & _ & _).
   destruct (code_roundtrip _ Hc) as [cv (Hcv & _ & _)].
   rewrite (add_header_chain st m0 cv WF Hcv) in Hh. injection Hh as <-.
-  pose proof (ins_opt_length (ins_opt (hm_insert (hm_extend m0 (sanitize (st_md st))) hdr_grpc_status cv)
-                         hdr_grpc_message (msg_value st)) hdr_grpc_status_details (details_value st)).
+  assert (L : (length (set_opt (ins_opt (hm_insert (hm_extend m0 (sanitize (st_md st))) hdr_grpc_status cv)
+                         hdr_grpc_message (msg_value st)) hdr_grpc_status_details (details_value st))
+               + N.to_nat (removed_names st)
+               <= S (length (ins_opt (hm_insert (hm_extend m0 (sanitize (st_md st))) hdr_grpc_status cv)
+                         hdr_grpc_message (msg_value st))))%nat).
+  { pose proof (removed_names_le st) as R. unfold details_value, removed_names in *.
+    destruct (st_details st) as [|d0 ds]; cbn [is_nil set_opt].
+    - pose proof (remove_length (ins_opt (hm_insert (hm_extend m0 (sanitize (st_md st))) hdr_grpc_status cv)
+                         hdr_grpc_message (msg_value st)) hdr_grpc_status_details). lia.
+    - pose proof (insert_length (ins_opt (hm_insert (hm_extend m0 (sanitize (st_md st))) hdr_grpc_status cv)
+                         hdr_grpc_message (msg_value st)) hdr_grpc_status_details (enc false (d0 :: ds))).
+      change (N.to_nat 0) with 0%nat. lia. }
   pose proof (ins_opt_length (hm_insert (hm_extend m0 (sanitize (st_md st))) hdr_grpc_status cv)
                          hdr_grpc_message (msg_value st)).
   pose proof (insert_length (hm_extend m0 (sanitize (st_md st))) hdr_grpc_status cv).
@@ -268,11 +281,12 @@ Proof.
 Qed.
 
 (* exactly when Status::into_http panics: never on a header value (well-formed status), and on
-   the header map's capacity iff the finished map would hold more than 24576 names *)
+   the header map's capacity iff the map would hold more than 24576 names - the names of the
+   finished map and the grpc-status-details-bin a status without details removes at the very end *)
 Theorem status_into_http_exact st :
   well_formed st ->
   exists h, add_header st ct_only = Some h /\
-    status_into_http st = if HEADER_MAP_MAX_NAMES <? names_count h then Panic else Val h.
+    status_into_http st = if HEADER_MAP_MAX_NAMES <? names_count h + removed_names st then Panic else Val h.
 Proof.
   intros WF. destruct (status_into_http_total st WF) as (h & Hv & Hh).
   exists h. split; [exact Hh|]. unfold status_into_http. now rewrite Hv.
@@ -286,7 +300,7 @@ Proof.
   exists h. split; [exact Hh|]. rewrite He.
   pose proof (add_header_length st ct_only h WF Hh) as L. cbn [ct_only hm_insert hm_remove filter app length] in L.
   pose proof (names_count_le h).
-  replace (HEADER_MAP_MAX_NAMES <? names_count h) with false; [reflexivity|].
+  replace (HEADER_MAP_MAX_NAMES <? names_count h + removed_names st) with false; [reflexivity|].
   symmetry. apply N.ltb_ge. lia.
 Qed.
 
@@ -324,7 +338,7 @@ Theorem reject_vetoes {IS SS E B Err Fut P RB} (f : interceptor IS E)
     hm_get_all h hdr_grpc_status = [cv] /\
     hm_get_all h hdr_grpc_message = opt_list (msg_value st) /\
     forall k, hm_get_all h k =
-      if set_by hdr_grpc_status_details (details_value st) k then opt_list (details_value st)
+      if bytes_eqb hdr_grpc_status_details k then opt_list (details_value st)
       else if set_by hdr_grpc_message (msg_value st) k then opt_list (msg_value st)
       else if bytes_eqb hdr_grpc_status k then [cv]
       else match (if is_reserved k then [] else hm_get_all (st_md st) k) with
@@ -337,7 +351,7 @@ Proof.
   destruct (status_into_http_fits st WF CAP) as (h' & Hh' & Hv). rewrite Hh in Hh'. injection Hh' as <-.
   exists h, cv.
   assert (Hpt' : forall k, hm_get_all h k =
-      if set_by hdr_grpc_status_details (details_value st) k then opt_list (details_value st)
+      if bytes_eqb hdr_grpc_status_details k then opt_list (details_value st)
       else if set_by hdr_grpc_message (msg_value st) k then opt_list (msg_value st)
       else if bytes_eqb hdr_grpc_status k then [cv]
       else match (if is_reserved k then [] else hm_get_all (st_md st) k) with
@@ -348,33 +362,37 @@ Proof.
   split; [exact (reject_never_calls f inner is ss req st is' H)|].
   split; [intros n; exact (reject_future fp st h n Hv)|].
   split; [exact Hh|split; [exact Hcv|split; [|split; [|split; [|exact Hpt']]]]].
-  - rewrite Hpt'. rewrite (set_by_neq hdr_grpc_status_details _ hdr_content_type eq_refl).
+  - rewrite Hpt'. change (bytes_eqb hdr_grpc_status_details hdr_content_type) with false.
     rewrite (set_by_neq hdr_grpc_message _ hdr_content_type eq_refl). reflexivity.
-  - rewrite Hpt'. rewrite (set_by_neq hdr_grpc_status_details _ hdr_grpc_status eq_refl).
+  - rewrite Hpt'. change (bytes_eqb hdr_grpc_status_details hdr_grpc_status) with false.
     rewrite (set_by_neq hdr_grpc_message _ hdr_grpc_status eq_refl). now rewrite bytes_eqb_refl.
-  - rewrite Hpt'. rewrite (set_by_neq hdr_grpc_status_details _ hdr_grpc_message eq_refl).
+  - rewrite Hpt'. change (bytes_eqb hdr_grpc_status_details hdr_grpc_message) with false.
     unfold set_by. destruct (msg_value st); reflexivity.
 Qed.
 
 (* ... and a caller that reads those headers with Status::from_header_map recovers precisely
-   that status: code, message, details and (name by name) its metadata minus the reserved
-   names; the only other entry it sees is the content-type tonic wrote *)
+   that status, for EVERY status metadata (fix ed827503 of finding F-C04e; before it the metadata
+   had to be free of grpc-status-details-bin entries): code, message, details and (name by name)
+   its metadata minus the reserved names and minus what was filed under grpc-status-details-bin
+   (the reader strips that name: such an entry cannot be delivered); the only other entry it sees
+   is the content-type tonic wrote *)
 Theorem reject_status_recovered {IS SS E B Err Fut P RB} (f : interceptor IS E)
     (inner : svc_impl SS (http_request E B) Err Fut) (fp : fut_impl Fut (Err + (P * RB))) is ss req st is' :
   f is (mkReq (from_headers (rq_headers req)) (rq_ext req) tt) = (inr st, is') ->
   well_formed st -> N.of_nat (length (st_md st)) + 4 <= HEADER_MAP_MAX_NAMES ->
   utf8_valid (st_msg st) = true ->
-  hm_get_all (st_md st) hdr_grpc_status_details = [] ->
   exists h st',
     intercepted_call f inner (is, ss) req = (KStatus (Some st), (is', ss)) /\
     rf_run fp (KStatus (Some st)) 1 = [Val (PReady (inr (HStatus HTTP_200 HTTP_11 h, RbEmpty)))] /\
     from_header_map h = Some st' /\
     st_code st' = st_code st /\ st_msg st' = st_msg st /\ st_details st' = st_details st /\
     forall k, hm_get_all (st_md st') k =
-      if bytes_eqb hdr_content_type k then [val_app_grpc] else hm_get_all (sanitize (st_md st)) k.
+      if bytes_eqb hdr_content_type k then [val_app_grpc]
+      else if bytes_eqb k hdr_grpc_status_details then []
+      else hm_get_all (sanitize (st_md st)) k.
 Proof.
-  intros H WF CAP Hutf Hnod.
-  destruct (status_roundtrip_on st ct_only WF Hutf Hnod eq_refl eq_refl)
+  intros H WF CAP Hutf.
+  destruct (status_roundtrip_on st ct_only WF Hutf eq_refl)
     as (h & st' & Hh & Hf & Hc & Hm & Hd & Hmd).
   destruct (status_into_http_fits st WF CAP) as (h' & Hh' & Hv). rewrite Hh in Hh'. injection Hh' as <-.
   exists h, st'.
@@ -387,10 +405,21 @@ Proof.
   destruct (bytes_eqb k hdr_grpc_message) eqn:K2.
   { apply bytes_eqb_eq in K2. subst k. cbn [orb]. now rewrite get_all_sanitize, reserved_message. }
   destruct (bytes_eqb k hdr_grpc_status_details) eqn:K3.
-  { apply bytes_eqb_eq in K3. subst k. cbn [orb]. rewrite get_all_sanitize, reserved_details. now rewrite Hnod. }
+  { apply bytes_eqb_eq in K3. subst k. reflexivity. }
   cbn [orb]. destruct (bytes_eqb hdr_content_type k) eqn:K4.
   + apply bytes_eqb_eq in K4. subst k. now rewrite get_all_sanitize.
   + now destruct (hm_get_all (sanitize (st_md st)) k).
+Qed.
+
+(* the premise the round trip had before fix ed827503 now only says that the metadata conjunct
+   loses nothing *)
+Lemma metadata_whole md :
+  hm_get_all md hdr_grpc_status_details = [] ->
+  forall k, (if bytes_eqb k hdr_grpc_status_details then [] else hm_get_all (sanitize md) k)
+            = hm_get_all (sanitize md) k.
+Proof.
+  intros Hnod k. destruct (bytes_eqb k hdr_grpc_status_details) eqn:K3; [|reflexivity].
+  apply bytes_eqb_eq in K3. subst k. now rewrite get_all_sanitize, reserved_details, Hnod.
 Qed.
 
 (* the scripted interceptors of the harness are instances of the quantified function *)
